@@ -102,8 +102,8 @@ structure Cfg where
   fixReack : Bool := false
   /-- F-C06-2 repair: a read that reopens a closed (zero) window advertises it. -/
   fixWinUpdate : Bool := false
-  /-- F-C13-1 repair: a never-accepted child that is aborted while still handshaking is marked
-      `fd_closed`, so `reap_closed` reclaims it. -/
+  /-- F-C13-1 (= F-C17-1) repair: a never-accepted child that is reset or times out while still
+      `SynReceived` is removed from the socket table at once. -/
   fixReapOrphan : Bool := false
   /-- F-C06-5 repair: the retransmit counters are reset when the handshake completes. -/
   fixHsReset : Bool := false
